@@ -72,3 +72,130 @@ Theorem C03_vle_join_lub :
   forall a b c : vv, vle a c -> vle b c -> vle (vv_join a b) c.
 Proof. exact vle_join_lub. Qed.
 Print Assumptions C03_vle_join_lub.
+
+(* ==== appended by tools/mkprops.py (APPEND table) ==== *)
+
+Require Import LV.Base LV.VV LV.VVFacts LV.Path LV.PathSpec LV.PathTerm LV.PathDistinct LV.PathApi LV.Prog LV.Objects LV.Exec LV.Atomic LV.Ops LV.Check LV.AtomicFacts LV.AtomicCoherence.
+
+(* Exact characterisation of the candidate sets of loads and RMWs, for arbitrary states and any number of threads (AtomicCoherence.v) *)
+(* a ring slot is a load candidate iff it is live and no live store that is later in modification order is already seen by the thread / excluded by the yield or SeqCst rule *)
+Theorem C03_load_candidates_spec :
+  forall (s : atomic_state) (me : nat) (caus : vv) (ly : option nat) (o : ord) (l : list nat),
+       match_load_to_stores s me caus ly o = Some l ->
+       forall i : nat,
+       In i l <->
+       i < MAX_ATOMIC_HISTORY /\
+       i < at_cnt s /\
+       (forall j : nat,
+        j < MAX_ATOMIC_HISTORY ->
+        j < at_cnt s ->
+        j <> i ->
+        vv_lt (st_mo (get_store s i)) (st_mo (get_store s j)) = true ->
+        is_seen_by_current (st_seen (get_store s j)) caus = false /\
+        is_seen_before_yield (st_seen (get_store s i)) me ly = false /\
+        is_seq_cst o && st_seqcst (get_store s i) && st_seqcst (get_store s j) = false).
+Proof. exact load_candidates_spec. Qed.
+Print Assumptions C03_load_candidates_spec.
+
+(* CoWR / CoRR: a thread never reads a store that is mo-before a store it has already observed *)
+Theorem C03_coherence_write_read :
+  forall (s : atomic_state) (me : nat) (caus : vv) (ly : option nat) 
+         (o : ord) (l : list nat) (i j : nat),
+       match_load_to_stores s me caus ly o = Some l ->
+       j < MAX_ATOMIC_HISTORY ->
+       j < at_cnt s ->
+       vv_lt (st_mo (get_store s i)) (st_mo (get_store s j)) = true ->
+       is_seen_by_current (st_seen (get_store s j)) caus = true -> ~ In i l.
+Proof. exact coherence_write_read. Qed.
+Print Assumptions C03_coherence_write_read.
+
+(* a SeqCst load never reads a SeqCst store that is mo-before another SeqCst store *)
+Theorem C03_coherence_seq_cst :
+  forall (s : atomic_state) (me : nat) (caus : vv) (ly : option nat) 
+         (l : list nat) (i j : nat),
+       match_load_to_stores s me caus ly SeqCst = Some l ->
+       j < MAX_ATOMIC_HISTORY ->
+       j < at_cnt s ->
+       vv_lt (st_mo (get_store s i)) (st_mo (get_store s j)) = true ->
+       st_seqcst (get_store s i) = true -> st_seqcst (get_store s j) = true -> ~ In i l.
+Proof. exact coherence_seq_cst. Qed.
+Print Assumptions C03_coherence_seq_cst.
+
+(* an RMW reads exactly a mo-maximal live store *)
+Theorem C03_rmw_candidates_spec :
+  forall (s : atomic_state) (l : list nat),
+       match_rmw_to_stores s = Some l ->
+       forall i : nat,
+       In i l <->
+       i < MAX_ATOMIC_HISTORY /\
+       i < at_cnt s /\
+       (forall j : nat,
+        j < MAX_ATOMIC_HISTORY ->
+        j < at_cnt s -> j <> i -> vv_lt (st_mo (get_store s i)) (st_mo (get_store s j)) = false).
+Proof. exact rmw_candidates_spec. Qed.
+Print Assumptions C03_rmw_candidates_spec.
+
+(* every RMW candidate is a load candidate *)
+Theorem C03_rmw_candidates_are_load_candidates :
+  forall (s : atomic_state) (me : nat) (caus : vv) (ly : option nat) 
+         (o : ord) (l lr : list nat) (i : nat),
+       match_load_to_stores s me caus ly o = Some l ->
+       match_rmw_to_stores s = Some lr -> In i lr -> In i l.
+Proof. exact rmw_candidates_are_load_candidates. Qed.
+Print Assumptions C03_rmw_candidates_are_load_candidates.
+
+(* loom's `left != right` assertion fires only when two distinct live stores have equal modification-order clocks *)
+Theorem C03_load_candidates_none :
+  forall (s : atomic_state) (me : nat) (caus : vv) (ly : option nat) (o : ord),
+       match_load_to_stores s me caus ly o = None ->
+       exists i j : nat,
+         i < MAX_ATOMIC_HISTORY /\
+         i < at_cnt s /\
+         j < MAX_ATOMIC_HISTORY /\
+         j < at_cnt s /\ i <> j /\ vv_eqb (st_mo (get_store s i)) (st_mo (get_store s j)) = true.
+Proof. exact load_candidates_none. Qed.
+Print Assumptions C03_load_candidates_none.
+
+(* RMW atomicity (fix 189e88b): at the fixpoint, every RMW store whose source is mo-before the new store is itself mo-before the new store *)
+Theorem C03_rmw_atomicity_fixpoint :
+  forall (fuel : nat) (stores : list astore) (src : option (nat * nat)) (mo : vv),
+       let mo' := rmw_atomicity fuel stores src mo in
+       snd (rmw_atomicity_pass stores src mo') = false ->
+       forall (x : astore) (slot sid : nat),
+       In x stores ->
+       st_rmw_src x = Some (slot, sid) ->
+       src_eqb (Some (slot, sid)) src = false ->
+       st_id (nth slot stores store_default) = sid ->
+       vv_le (st_mo (nth slot stores store_default)) mo' = true -> vv_le (st_mo x) mo' = true.
+Proof. exact rmw_atomicity_fixpoint. Qed.
+Print Assumptions C03_rmw_atomicity_fixpoint.
+
+(* the fixpoint is reached with fuel = ring size *)
+Theorem C03_rmw_atomicity_sufficient_fuel :
+  forall (fuel : nat) (stores : list astore) (src : option (nat * nat)) (mo : vv),
+       length stores <= fuel ->
+       snd (rmw_atomicity_pass stores src (rmw_atomicity fuel stores src mo)) = false.
+Proof. exact rmw_atomicity_sufficient_fuel. Qed.
+Print Assumptions C03_rmw_atomicity_sufficient_fuel.
+
+(* the postcondition of the model's own store: the new store is mo-after the thread's clock, after every store it has seen, and closed under RMW atomicity *)
+Theorem C03_atomic_store_from_rmw_atomic :
+  forall (s : atomic_state) (me : nat) (caus released sync0 : vv) 
+         (value : N) (o : ord) (src : option (nat * nat)),
+       length (at_stores s) = MAX_ATOMIC_HISTORY ->
+       let s' := atomic_store_from s me caus released sync0 value o src in
+       let mo' := st_mo (get_store s' (aindex (at_cnt s))) in
+       vle caus mo' /\
+       (forall x : astore,
+        In x (at_stores s) -> is_seen_by_current (st_seen x) caus = true -> vle (st_mo x) mo') /\
+       snd (rmw_atomicity_pass (at_stores s) src mo') = false /\
+       (forall (x : astore) (slot sid : nat),
+        In x (at_stores s) ->
+        st_rmw_src x = Some (slot, sid) ->
+        src_eqb (Some (slot, sid)) src = false ->
+        st_id (nth slot (at_stores s) store_default) = sid ->
+        vv_le (st_mo (nth slot (at_stores s) store_default)) mo' = true ->
+        vv_le (st_mo x) mo' = true).
+Proof. exact atomic_store_from_rmw_atomic. Qed.
+Print Assumptions C03_atomic_store_from_rmw_atomic.
+
